@@ -89,12 +89,14 @@ def conformant(block_type, headers):
     # request / push
     if b":status" in seen_pseudo:
         return False, "response pseudo-header in request"
-    if method == b"CONNECT":
-        return UNSPECIFIED, "CONNECT requests (RFC 7540 8.3 / RFC 8441) are outside the stated rules"
+    if method == b"CONNECT" and b":protocol" not in seen_pseudo:
+        return UNSPECIFIED, "plain CONNECT requests (RFC 7540 8.3) are outside the stated rules"
+    # (an extended CONNECT, RFC 8441, is an ordinary request as far as these rules go: :protocol is a request
+    # pseudo-header that is allowed with - and only with - :method CONNECT, wherever among the pseudo-headers it stands)
     for req in (b":method", b":scheme", b":path"):
         if req not in seen_pseudo:
             return False, "request without %s" % req.decode()
-    if b":protocol" in seen_pseudo:
+    if b":protocol" in seen_pseudo and method != b"CONNECT":
         return False, ":protocol outside CONNECT"
     if len(hosts) > 1:
         return UNSPECIFIED, "duplicate Host fields"
@@ -171,12 +173,12 @@ def outbound_rules_only(block_type, headers):
         return True, None
     if b":status" in seen_pseudo:
         return False, "response pseudo-header in request"
-    if method == b"CONNECT":
+    if method == b"CONNECT" and b":protocol" not in seen_pseudo:
         return UNSPECIFIED, "CONNECT"
     for req in (b":method", b":scheme", b":path"):
         if req not in seen_pseudo:
             return False, "request without %s" % req.decode()
-    if b":protocol" in seen_pseudo:
+    if b":protocol" in seen_pseudo and method != b"CONNECT":
         return False, ":protocol outside CONNECT"
     if len(hosts) > 1:
         return UNSPECIFIED, "duplicate Host fields"
